@@ -160,7 +160,7 @@ def model_lines(case):
     files, data = w_files(case), w_data(case)
     kind = Atom(G.entry_kind(case))
     return [proto.line(Atom('C11'), Atom('render'), Atom(m), FUEL, files, case['entry'], kind, data)
-            for m in ('inline', 'runtime')] + [proto.line(Atom('C11'), Atom('inh'), files),
+            for m in ('inline', 'runtime')] + [proto.line(Atom('C11'), Atom('inh'), files, Atom('w')),
                                                proto.line(Atom('C11'), Atom('kept'), files, case['entry'], kind),
                                                proto.line(Atom('C11'), Atom('render'), Atom('inplace'), FUEL, files,
                                                           case['entry'], kind, data)]
@@ -275,6 +275,10 @@ def shard(arg):
         rng = random.Random('%s/%s/%s/%s/C11' % (seed, mode, idx, i))
         if mode == 'zone':
             case = G.gen_case(rng, zone=True, illformed=rng.random() < 0.3)
+        elif mode == 'ill':
+            # one ill-formed file in an otherwise ordinary tree (inside inHW), several requests through one loader:
+            # preparations that fail part-way, at load time and inside run-time includes
+            case = G.gen_case(rng, illformed=True, seq=True)
         else:
             case = G.gen_case(rng)
         cases.append(case)
@@ -358,11 +362,22 @@ def shard(arg):
             if mo != real[m]:
                 res.disagreements.append({'stream': 'render-' + m, 'case': case, 'model': repr(mo)[:600],
                                           'real': repr(real[m])[:600], 'sources': sources(case)})
-        lean_inh = answers[NL * i + 2] == 'T'
+        lean_inh, lean_inhw = [x == 'T' for x in answers[NL * i + 2].strip('() ').split()]
         res.streams['hypothesis'] = res.streams.get('hypothesis', 0) + 1
         if lean_inh != G.in_hypothesis(case):
             res.disagreements.append({'stream': 'hypothesis', 'case': case, 'model': repr(lean_inh),
                                       'real': repr(G.in_hypothesis(case)), 'sources': sources(case)})
+        # inHW (ill-formed files allowed): where the theorem inline_eq_runtime_illformed_partial speaks
+        inhw = G.in_hypothesis_w(case)
+        res.streams['hypothesis-w'] = res.streams.get('hypothesis-w', 0) + 1
+        if lean_inhw != inhw:
+            res.disagreements.append({'stream': 'hypothesis-w', 'case': case, 'model': repr(lean_inhw),
+                                      'real': repr(inhw), 'sources': sources(case)})
+        if inhw and not G.static_targets_wellformed(case) and G.modelled(case):
+            a, b = real['inline'], real['runtime']
+            res.count('ill-formed-inside-inHW:' + ('modes-agree' if a == b else
+                                                   'inline-raises-syntax-error-only' if a == ['err', 'TemplateSyntaxError'] else
+                                                   'OTHER'))
         # the Lean specification evaluator (an include is rendered as its target's nodes in place), where
         # `runtime_eq_spec_partial` speaks (no match template defined in the file set): against the real code
         sa = answers[NL * i + 4]
@@ -471,7 +486,9 @@ def run(ctx):
         nsh = 16
         per = ctx.n(100, 3200)           # inside the hypothesis: 1 600 / 51 200 trees
         perz = ctx.n(30, 800)            # outside it (zone / ill-formed): correspondence only
-        args = [(ctx.seed, i, per, 'in') for i in range(nsh)] + [(ctx.seed, i, perz, 'zone') for i in range(nsh)]
+        peri = ctx.n(15, 400)            # one ill-formed file, inside inHW, sequences: preparations failing part-way
+        args = ([(ctx.seed, i, per, 'in') for i in range(nsh)] + [(ctx.seed, i, perz, 'zone') for i in range(nsh)] +
+                [(ctx.seed, i, peri, 'ill') for i in range(nsh)])
         for r in pmap('harness.props.c11', 'corpus_shard', [0], procs=1):
             res.merge(r)
         for r in pmap('harness.props.c11', 'shard', args, procs=16):
